@@ -338,9 +338,11 @@ class WhileToFor:
             return any(isinstance(n, ast.Name) and n.id == name and isinstance(n.ctx, (ast.Store, ast.Del)) for s in body for n in ast.walk(s))
 
         # D: it = iter(X) ... while (x := next(it, S)) is not S: body      ==>   for x in X: body
-        if isinstance(op, ast.IsNot) and isinstance(a, ast.NamedExpr) and isinstance(a.target, ast.Name) and isinstance(b, ast.Name) and isinstance(a.value, ast.Call) \
+        if isinstance(op, ast.IsNot) and isinstance(a, ast.NamedExpr) and isinstance(a.target, ast.Name) and isinstance(a.value, ast.Call) \
                 and isinstance(a.value.func, ast.Name) and a.value.func.id == "next" and len(a.value.args) == 2 and isinstance(a.value.args[0], ast.Name) \
-                and isinstance(a.value.args[1], ast.Name) and a.value.args[1].id == b.id:
+                and ((isinstance(b, ast.Name) and isinstance(a.value.args[1], ast.Name) and a.value.args[1].id == b.id)
+                     or (isinstance(b, ast.Constant) and b.value is None and isinstance(a.value.args[1], ast.Constant) and a.value.args[1].value is None)):
+            # (with None as the end marker: the items of the tables and item lists walked this way are never None - stated assumption)
             itn = a.value.args[0].id
             init = next((s for s in reversed(before) if isinstance(s, ast.Assign) and len(s.targets) == 1 and isinstance(s.targets[0], ast.Name) and s.targets[0].id == itn), None)
             if init is not None and isinstance(init.value, ast.Call) and isinstance(init.value.func, ast.Name) and init.value.func.id == "iter" and len(init.value.args) == 1 \
@@ -538,6 +540,10 @@ class Desugar(ast.NodeTransformer):
             return ast.copy_location(ast.Call(func=meth, args=list(node.func.args[1:]), keywords=list(node.func.keywords)), node)
         if isinstance(node.func, ast.Call) and ast.unparse(node.func.func) in ("itemgetter", "operator.itemgetter") and len(node.func.args) == 1 and len(node.args) == 1 and not node.keywords:
             return ast.copy_location(ast.Subscript(value=node.args[0], slice=node.func.args[0], ctx=ast.Load()), node)
+        # itemgetter(k1, k2)(x)  ->  (x[k1], x[k2])
+        if isinstance(node.func, ast.Call) and ast.unparse(node.func.func) in ("itemgetter", "operator.itemgetter") and len(node.func.args) > 1 and not node.func.keywords \
+                and all(isinstance(a, ast.Constant) for a in node.func.args) and len(node.args) == 1 and not node.keywords and isinstance(node.args[0], (ast.Name, ast.Attribute)):
+            return ast.copy_location(ast.Tuple(elts=[ast.Subscript(value=copy.deepcopy(node.args[0]), slice=a, ctx=ast.Load()) for a in node.func.args], ctx=ast.Load()), node)
         # map(F, repeat(a, n), repeat(b)) -> (F(a, b) for _ in range(n))        (every argument a repeat of a name / literal; one of them bounded)
         if fn == "map" and len(node.args) >= 3 and not node.keywords and isinstance(node.args[0], (ast.Name, ast.Attribute)) \
                 and all(isinstance(x, ast.Call) and ast.unparse(x.func) in ("repeat", "itertools.repeat") and 1 <= len(x.args) <= 2 and not x.keywords
@@ -575,6 +581,48 @@ class Desugar(ast.NodeTransformer):
             lam, xs = node.args
             v = lam.args.args[0].arg
             return ast.copy_location(ast.GeneratorExp(elt=ast.Name(id=v, ctx=ast.Load()), generators=[ast.comprehension(target=ast.Name(id=v, ctx=ast.Store()), iter=xs, ifs=[lam.body], is_async=0)]), node)
+        # sum / any / all / min / max / tuple / list / sorted (E for <target> in <literal tuple>)  ->  the same over the unrolled tuple;
+        # sum((a, b, c)[, s])  ->  [s +] a + b + c
+        if fn in ("sum", "any", "all", "min", "max", "tuple", "list", "sorted") and node.args and isinstance(node.args[0], (ast.GeneratorExp, ast.ListComp)) \
+                and len(node.args[0].generators) == 1 and not node.args[0].generators[0].ifs and isinstance(node.args[0].generators[0].iter, (ast.Tuple, ast.List)) \
+                and 0 < len(node.args[0].generators[0].iter.elts) <= 8:
+            g = node.args[0].generators[0]
+            elts = []
+            for e in g.iter.elts:
+                if isinstance(g.target, ast.Name):
+                    elts.append(_subst(node.args[0].elt, {g.target.id: e}))
+                elif isinstance(g.target, ast.Tuple) and isinstance(e, (ast.Tuple, ast.List)) and len(e.elts) == len(g.target.elts) and all(isinstance(t, ast.Name) for t in g.target.elts):
+                    elts.append(_subst(node.args[0].elt, {t.id: v for t, v in zip(g.target.elts, e.elts)}))
+                else:
+                    elts = None
+                    break
+            if elts is not None:
+                node.args[0] = ast.copy_location(ast.Tuple(elts=elts, ctx=ast.Load()), node.args[0])
+        if fn == "sum" and 1 <= len(node.args) <= 2 and not node.keywords and isinstance(node.args[0], ast.Tuple) and node.args[0].elts:
+            acc = node.args[1] if len(node.args) == 2 else None
+            for e in node.args[0].elts:
+                acc = e if acc is None else ast.BinOp(left=acc, op=ast.Add(), right=e)
+            return ast.copy_location(acc, node)
+        # bytes.fromhex("82 4b ..")  ->  the bytes literal
+        if fn == "bytes.fromhex" and len(node.args) == 1 and not node.keywords and isinstance(node.args[0], ast.Constant) and isinstance(node.args[0].value, str):
+            try:
+                return ast.copy_location(ast.Constant(value=bytes.fromhex(node.args[0].value)), node)
+            except ValueError:
+                pass
+        # filter(F, X)  ->  (v for v in X if F(v))        (filter(None, X): if v)
+        if fn == "filter" and len(node.args) == 2 and not node.keywords and (isinstance(node.args[0], (ast.Name, ast.Attribute, ast.Lambda))
+                                                                                 or (isinstance(node.args[0], ast.Constant) and node.args[0].value is None)):
+            v = f"_fv{next(_counter)}"
+            f0 = node.args[0]
+            cond = ast.Name(id=v, ctx=ast.Load()) if isinstance(f0, ast.Constant) else self.visit(ast.Call(func=f0, args=[ast.Name(id=v, ctx=ast.Load())], keywords=[]))
+            return ast.copy_location(ast.GeneratorExp(elt=ast.Name(id=v, ctx=ast.Load()),
+                                                      generators=[ast.comprehension(target=ast.Name(id=v, ctx=ast.Store()), iter=node.args[1], ifs=[cond], is_async=0)]), node)
+        # "a b c".split() / "a,b".split(",")  ->  ["a", "b", "c"]        (a constant string split at definition time)
+        if isinstance(node.func, ast.Attribute) and node.func.attr == "split" and isinstance(node.func.value, ast.Constant) and isinstance(node.func.value.value, str) \
+                and not node.keywords and len(node.args) <= 1 and all(isinstance(a, ast.Constant) and isinstance(a.value, str) for a in node.args):
+            parts = node.func.value.value.split(*[a.value for a in node.args])
+            if len(parts) <= 16:
+                return ast.copy_location(ast.List(elts=[ast.Constant(value=p_) for p_ in parts], ctx=ast.Load()), node)
         # np.fromiter(G, dtype=D)  ->  np.array([G..], dtype=D)        (the items of the generator, in order, as an array of that dtype)
         if fn in ("np.fromiter", "numpy.fromiter") and node.args and isinstance(node.args[0], (ast.GeneratorExp, ast.ListComp)) \
                 and all(k.arg in ("dtype", "count") for k in node.keywords) and len(node.args) <= 2:
@@ -660,8 +708,46 @@ class Desugar(ast.NodeTransformer):
             node.args = args
         return node
 
+    def _comp_generators(self, node):
+        """for i, j in product(A, B)  ->  for i in A for j in B ;   if (v := E) is not None .. v ..  ->  if E is not None .. E ..
+        (E free of calls, v read only inside the comprehension)"""
+        gens = []
+        for g in node.generators:
+            it = g.iter
+            if isinstance(it, ast.Call) and ast.unparse(it.func) in ("product", "itertools.product") and len(it.args) == 2 and not it.keywords \
+                    and isinstance(g.target, ast.Tuple) and len(g.target.elts) == 2 and not g.is_async:
+                gens.append(ast.comprehension(target=g.target.elts[0], iter=it.args[0], ifs=[], is_async=0))
+                gens.append(ast.comprehension(target=g.target.elts[1], iter=it.args[1], ifs=g.ifs, is_async=0))
+            else:
+                gens.append(g)
+        node.generators = gens
+        for g in node.generators:
+            for k, cond in enumerate(g.ifs):
+                wal = [x for x in ast.walk(cond) if isinstance(x, ast.NamedExpr) and isinstance(x.target, ast.Name)]
+                if len(wal) == 1 and not any(isinstance(x, (ast.Call, ast.NamedExpr)) and x is not wal[0] for x in ast.walk(wal[0].value)):
+                    v, E = wal[0].target.id, wal[0].value
+
+                    class W(ast.NodeTransformer):
+                        def visit_NamedExpr(self, n):
+                            return copy.deepcopy(E) if n is wal[0] else self.generic_visit(n)
+
+                        def visit_Name(self, n):
+                            return copy.deepcopy(E) if n.id == v and isinstance(n.ctx, ast.Load) else n
+                    g.ifs[k] = W().visit(cond)
+                    for fld in ("elt", "key", "value"):
+                        if hasattr(node, fld):
+                            setattr(node, fld, W().visit(getattr(node, fld)))
+                    for g2 in node.generators[node.generators.index(g):]:
+                        g2.ifs = [W().visit(c) if c is not g.ifs[k] else c for c in g2.ifs]
+        return node
+
+    def visit_GeneratorExp(self, node):
+        self.generic_visit(node)
+        return self._comp_generators(node)
+
     def visit_ListComp(self, node):
         self.generic_visit(node)
+        node = self._comp_generators(node)
         # [E for v in (a, b, c)]  ->  [E[a], E[b], E[c]]
         if len(node.generators) == 1 and not node.generators[0].ifs and isinstance(node.generators[0].iter, (ast.Tuple, ast.List)) \
                 and 0 < len(node.generators[0].iter.elts) <= 8 and isinstance(node.generators[0].target, ast.Name):
@@ -678,6 +764,12 @@ class Desugar(ast.NodeTransformer):
 
     def visit_Assign(self, node):
         self.generic_visit(node)
+        # v = shutil.copyfile(A, B)   ->   shutil.copyfile(A, B); v = B      (copyfile returns its destination)
+        if len(node.targets) == 1 and isinstance(node.targets[0], ast.Name) and isinstance(node.value, ast.Call) and ast.unparse(node.value.func) in ("shutil.copyfile",) \
+                and len(node.value.args) == 2 and not node.value.keywords and isinstance(node.value.args[1], (ast.Name, ast.Attribute)):
+            call = ast.copy_location(ast.Expr(value=node.value), node)
+            bind = ast.copy_location(ast.Assign(targets=node.targets, value=copy.deepcopy(node.value.args[1]), lineno=node.lineno), node)
+            return [call, bind]
         # h = Record(f(), g())  ->  _h0 = f(); _h1 = g(); h = Record(_h0, _h1)
         if len(node.targets) == 1 and isinstance(node.targets[0], ast.Name) and isinstance(node.value, ast.Call) and isinstance(node.value.func, ast.Name) \
                 and node.value.func.id in NT_NAMES and any(isinstance(x, ast.Call) for a_ in list(node.value.args) + [k.value for k in node.value.keywords] for x in ast.walk(a_)) \
@@ -759,6 +851,20 @@ class Desugar(ast.NodeTransformer):
                     and not any(isinstance(x, ast.Name) and x.id == g.target.id for x in ast.walk(it.args[0].elt)):
                 bind = ast.copy_location(ast.Assign(targets=[node.target.elts[1]], value=it.args[0].elt, lineno=node.lineno), node)
                 return ast.copy_location(ast.For(target=node.target.elts[0], iter=r, body=[bind] + node.body, orelse=[], type_comment=None), node)
+        # for (i, j), v in np.ndenumerate(X)  ->  for i in range(X.shape[0]): for j in range(X.shape[1]): v = X[i, j]; ..
+        # (the index tuple unpacks into two names, so X is 2-D; ndenumerate walks it in C order, last index fastest)
+        if isinstance(it, ast.Call) and ast.unparse(it.func) in ("np.ndenumerate", "numpy.ndenumerate") and len(it.args) == 1 and not it.keywords and not node.orelse \
+                and isinstance(it.args[0], (ast.Name, ast.Attribute)) and isinstance(node.target, ast.Tuple) and len(node.target.elts) == 2 \
+                and isinstance(node.target.elts[0], ast.Tuple) and len(node.target.elts[0].elts) == 2 and all(isinstance(x, ast.Name) for x in node.target.elts[0].elts) \
+                and isinstance(node.target.elts[1], ast.Name) and not _has_jump(node.body):
+            X = it.args[0]
+            i_, j_ = node.target.elts[0].elts
+            shp = lambda k: ast.Subscript(value=ast.Attribute(value=copy.deepcopy(X), attr="shape", ctx=ast.Load()), slice=ast.Constant(value=k), ctx=ast.Load())
+            rng = lambda k: ast.Call(func=ast.Name(id="range", ctx=ast.Load()), args=[shp(k)], keywords=[])
+            cell = ast.Subscript(value=copy.deepcopy(X), slice=ast.Tuple(elts=[ast.Name(id=i_.id, ctx=ast.Load()), ast.Name(id=j_.id, ctx=ast.Load())], ctx=ast.Load()), ctx=ast.Load())
+            bind = ast.copy_location(ast.Assign(targets=[node.target.elts[1]], value=cell, lineno=node.lineno), node)
+            inner = ast.copy_location(ast.For(target=j_, iter=rng(1), body=[bind] + node.body, orelse=[], type_comment=None), node)
+            return ast.fix_missing_locations(ast.copy_location(ast.For(target=i_, iter=rng(0), body=[inner], orelse=[], type_comment=None), node))
         if isinstance(it, ast.Call) and not node.orelse:
             fn = ast.unparse(it.func)
             # for v in list(X) / tuple(X)  with X an iteration helper over pure arguments  ->  for v in X
@@ -1187,6 +1293,29 @@ def inline_self_subscripts(tree):
                     return node
 
             L().visit(m)
+    # `for x in self` / `(.. for x in self ..)` through `def __iter__(self): return iter(self.<attr>)`: the items of that attribute, in order
+    for cls in [x for x in tree.body if isinstance(x, ast.ClassDef)]:
+        it = next((m for m in cls.body if isinstance(m, ast.FunctionDef) and m.name == "__iter__" and not m.decorator_list and len(m.args.args) == 1), None)
+        if it is None:
+            continue
+        body = [b for b in it.body if not (isinstance(b, ast.Expr) and isinstance(b.value, ast.Constant))]
+        if not (len(body) == 1 and isinstance(body[0], ast.Return) and isinstance(body[0].value, ast.Call) and ast.unparse(body[0].value.func) == "iter"
+                and len(body[0].value.args) == 1 and isinstance(body[0].value.args[0], ast.Attribute) and isinstance(body[0].value.args[0].value, ast.Name)
+                and body[0].value.args[0].value.id == it.args.args[0].arg):
+            continue
+        attr = body[0].value.args[0].attr
+        for m in cls.body:
+            if not isinstance(m, ast.FunctionDef) or m is it or not m.args.args or any(isinstance(d, ast.Name) and d.id == "staticmethod" for d in m.decorator_list):
+                continue
+            me = m.args.args[0].arg
+            if any(isinstance(x, ast.Name) and x.id == me and isinstance(x.ctx, ast.Store) for x in ast.walk(m)):
+                continue
+            for x in ast.walk(m):
+                for holder, fld in ((x, "iter"),) if isinstance(x, (ast.For, ast.comprehension)) else ():
+                    cur = getattr(holder, fld)
+                    if isinstance(cur, ast.Name) and cur.id == me:
+                        setattr(holder, fld, ast.copy_location(ast.Attribute(value=ast.Name(id=me, ctx=ast.Load()), attr=attr, ctx=ast.Load()), cur))
+                        n += 1
     if n:
         ast.fix_missing_locations(tree)
     return n
@@ -1472,12 +1601,18 @@ def unroll_yield_sequences(tree):
     gens = {}
     def scan(owner_body, cname):
         for fn in owner_body:
-            if isinstance(fn, ast.FunctionDef) and fn.name.startswith("_") and not fn.name.startswith("__") and not fn.decorator_list:
+            if isinstance(fn, ast.FunctionDef) and fn.name.startswith("_") and not fn.name.startswith("__") \
+                    and [ast.unparse(d) for d in fn.decorator_list] in ([], ["staticmethod"]):
                 body = [b for b in fn.body if not (isinstance(b, ast.Expr) and isinstance(b.value, ast.Constant))]
-                if body and len(body) <= 16 and all(isinstance(b, ast.Expr) and isinstance(b.value, ast.Yield) and b.value.value is not None for b in body) \
+
+                def template(stmts, depth=0):
+                    # yields as statements, possibly inside plain for loops: the loop structure of the generator becomes the caller's
+                    return bool(stmts) and all((isinstance(b, ast.Expr) and isinstance(b.value, ast.Yield) and b.value.value is not None)
+                                               or (isinstance(b, ast.For) and not b.orelse and depth < 2 and template(b.body, depth + 1)) for b in stmts)
+                if body and len(body) <= 16 and template(body) \
                         and not fn.args.vararg and not fn.args.kwarg and not fn.args.kwonlyargs and not fn.args.defaults \
                         and not any(isinstance(x, (ast.Lambda, ast.NamedExpr)) for b in body for x in ast.walk(b)):
-                    gens[(cname, fn.name)] = (fn, [b.value.value for b in body])
+                    gens[(cname, fn.name)] = (fn, body)
     scan(tree.body, None)
     for cls in [x for x in tree.body if isinstance(x, ast.ClassDef)]:
         scan(cls.body, cls.name)
@@ -1496,7 +1631,7 @@ def unroll_yield_sequences(tree):
         elif isinstance(f, ast.Attribute) and isinstance(f.value, ast.Name) and cname is not None and (cname, f.attr) in gens and f.value.id in ("self", cname):
             fn, exprs = gens[(cname, f.attr)]
             params = [a.arg for a in fn.args.args]
-            if f.value.id == "self":
+            if f.value.id == "self" and not fn.decorator_list:
                 if not params:
                     return None
                 recv, params = (params[0], f.value), params[1:]
@@ -1523,10 +1658,23 @@ def unroll_yield_sequences(tree):
                     st = site(node.iter, cname)
                     if st is not None:
                         fn, exprs, env = st
-                        out = []
-                        for e in exprs:
-                            out.append(ast.copy_location(ast.Assign(targets=[ast.Name(id=node.target.id, ctx=ast.Store())], value=_subst(e, env), lineno=node.lineno), node))
-                            out += [copy.deepcopy(b) for b in node.body]
+                        tag = next(_counter)
+
+                        def expand(stmts, env):
+                            out = []
+                            for b in stmts:
+                                if isinstance(b, ast.For):
+                                    ren = {x.id: ast.Name(id=f"{x.id}_g{tag}", ctx=ast.Load()) for x in ast.walk(b.target) if isinstance(x, ast.Name)}
+                                    tgt = copy.deepcopy(b.target)
+                                    for x in ast.walk(tgt):
+                                        if isinstance(x, ast.Name):
+                                            x.id = f"{x.id}_g{tag}"
+                                    out.append(ast.copy_location(ast.For(target=tgt, iter=_subst(b.iter, env), body=expand(b.body, {**env, **ren}), orelse=[], type_comment=None), node))
+                                else:
+                                    out.append(ast.copy_location(ast.Assign(targets=[ast.Name(id=node.target.id, ctx=ast.Store())], value=_subst(b.value.value, env), lineno=node.lineno), node))
+                                    out += [copy.deepcopy(x) for x in node.body]
+                            return out
+                        out = expand(exprs, env)
                         used.add(id(fn))
                         nonlocal_n[0] += 1
                         return out
@@ -1555,6 +1703,47 @@ def unroll_yield_sequences(tree):
             for c in tree.body:
                 if isinstance(c, ast.ClassDef) and c.name == cname:
                     c.body = [b for b in c.body if b is not fn] or [ast.Pass()]
+    if n:
+        ast.fix_missing_locations(tree)
+    return n
+
+
+def generators_to_tuples(tree):
+    """def _g(..): PRE..; yield E1; yield E2      every use being  <sep>.join(_g(..)) / list(_g(..)) / tuple(_g(..))
+    ==>  def _g(..): PRE..; return (E1, E2)       (the consumer drains the generator at once; the yielded expressions are plain
+    names / attribute reads, so producing them all before the consumer looks at the first changes nothing)"""
+    n = 0
+    owners = [(None, tree.body)] + [(c.name, c.body) for c in tree.body if isinstance(c, ast.ClassDef)]
+    for cname, body in owners:
+        for fn in [f for f in body if isinstance(f, ast.FunctionDef) and f.name.startswith("_") and not f.name.startswith("__")]:
+            ys = [x for x in ast.walk(fn) if isinstance(x, (ast.Yield, ast.YieldFrom))]
+            if not ys or any(isinstance(y, ast.YieldFrom) for y in ys):
+                continue
+            stm = [b for b in fn.body]
+            k = len(stm)
+            while k > 0 and isinstance(stm[k - 1], ast.Expr) and isinstance(stm[k - 1].value, ast.Yield) and stm[k - 1].value.value is not None:
+                k -= 1
+            tail = stm[k:]
+            if not tail or len(tail) != len(ys) or len(tail) > 8:
+                continue       # a yield somewhere else than in the trailing run
+            if not all(isinstance(t.value.value, (ast.Name, ast.Constant)) or (isinstance(t.value.value, ast.Attribute) and isinstance(t.value.value.value, ast.Name)) for t in tail):
+                continue
+            if any(isinstance(x, ast.Return) for x in ast.walk(fn)):
+                continue
+            # every use is an immediate, complete consumer
+            uses = [x for x in ast.walk(tree) if (isinstance(x, ast.Attribute) and x.attr == fn.name) or (isinstance(x, ast.Name) and x.id == fn.name and isinstance(x.ctx, ast.Load))]
+            good = []
+            for c in ast.walk(tree):
+                if isinstance(c, ast.Call) and len(c.args) == 1 and not c.keywords and isinstance(c.args[0], ast.Call) and c.args[0].func in uses \
+                        and ((isinstance(c.func, ast.Attribute) and c.func.attr == "join") or (isinstance(c.func, ast.Name) and c.func.id in ("list", "tuple"))):
+                    good.append(c.args[0].func)
+            if not uses or len(good) != len(uses):
+                continue
+            ret = ast.copy_location(ast.Return(value=ast.Tuple(elts=[t.value.value for t in tail], ctx=ast.Load())), tail[0])
+            fn.body = stm[:k] + [ret]
+            if fn.returns is not None:
+                fn.returns = None
+            n += 1
     if n:
         ast.fix_missing_locations(tree)
     return n
@@ -1720,6 +1909,129 @@ def exitstack_conditional(tree):
     return n
 
 
+# ------------------------------------------------------------------------------------------- D23 a projected snapshot of a list
+def projected_snapshots(tree):
+    """L = [E(v) for v in X]      (E reads only v; L a local that is only iterated / sliced / measured, X not changed in between)
+    .. for n, k in enumerate(L) ..  ==>  .. for n, v' in enumerate(X) .. with k := E(v')      likewise  for k in L[a:]  and  len(L) -> len(X)
+    The snapshot holds, position by position, the projection of the elements of X."""
+    from .normalize import _kills, _paths_read, _pure_expr
+    n = 0
+    for fn in [x for x in ast.walk(tree) if isinstance(x, ast.FunctionDef)]:
+        stores = {}
+        for x in ast.walk(fn):
+            if isinstance(x, ast.Name) and isinstance(x.ctx, (ast.Store, ast.Del)):
+                stores[x.id] = stores.get(x.id, 0) + 1
+        for owner, fld in list(_blocks(fn)):
+            stmts = getattr(owner, fld)
+            for i, st in enumerate(stmts):
+                if not (isinstance(st, ast.Assign) and len(st.targets) == 1 and isinstance(st.targets[0], ast.Name) and stores.get(st.targets[0].id) == 1
+                        and isinstance(st.value, ast.ListComp) and len(st.value.generators) == 1 and not st.value.generators[0].ifs
+                        and isinstance(st.value.generators[0].target, ast.Name) and _pure_expr(st.value.elt) and _pure_expr(st.value.generators[0].iter)
+                        and isinstance(st.value.generators[0].iter, (ast.Attribute, ast.Name))):
+                    continue
+                L = st.targets[0].id
+                g = st.value.generators[0]
+                v, X, E = g.target.id, g.iter, st.value.elt
+                if {x.id for x in ast.walk(E) if isinstance(x, ast.Name)} - {v}:
+                    continue
+                rest = stmts[i + 1:]
+                loads = [x for x in ast.walk(fn) if isinstance(x, ast.Name) and x.id == L and isinstance(x.ctx, ast.Load)]
+                inrest = [x for s_ in rest for x in ast.walk(s_) if isinstance(x, ast.Name) and x.id == L and isinstance(x.ctx, ast.Load)]
+                if not loads or len(loads) != len(inrest):
+                    continue
+                # X (and what E reads of its elements) stays as it is up to the last use
+                last = max(k for k, s_ in enumerate(rest) if any(x in inrest for x in ast.walk(s_)))
+                xt = ast.unparse(X)
+                eattrs = {x.attr for x in ast.walk(E) if isinstance(x, ast.Attribute)} | ({X.attr} if isinstance(X, ast.Attribute) else set())
+                root = xt.split(".")[0]
+
+                def changes(s_):
+                    for q in ast.walk(s_):
+                        if isinstance(q, ast.Attribute) and isinstance(q.ctx, (ast.Store, ast.Del)) and q.attr in eattrs:
+                            return True
+                        if isinstance(q, ast.Subscript) and isinstance(q.ctx, (ast.Store, ast.Del)) and ast.unparse(q.value) == xt:
+                            return True
+                        if isinstance(q, ast.Name) and isinstance(q.ctx, (ast.Store, ast.Del)) and q.id in (root, L):
+                            return True
+                        if isinstance(q, ast.Call) and isinstance(q.func, ast.Attribute):
+                            if ast.unparse(q.func.value) == xt and q.func.attr in ("append", "remove", "insert", "pop", "clear", "extend", "sort", "reverse"):
+                                return True
+                            if isinstance(q.func.value, ast.Name) and q.func.value.id == root and root in ("self", "cls"):
+                                return True      # a method of the same object may change the list
+                    return False
+                if any(changes(s_) for s_ in rest[:last + 1]):
+                    continue
+                plan = []
+                okk = True
+                parents = {}
+                for s_ in rest:
+                    for p_ in ast.walk(s_):
+                        for c_ in ast.iter_child_nodes(p_):
+                            parents[id(c_)] = p_
+                for x in inrest:
+                    par = parents.get(id(x))
+                    gp = parents.get(id(par)) if par is not None else None
+                    if isinstance(par, ast.Call) and ast.unparse(par.func) == "len" and len(par.args) == 1:
+                        plan.append(("len", par, None))
+                        continue
+                    holder, how = None, None
+                    if isinstance(par, (ast.comprehension, ast.For)) and par.iter is x:
+                        holder, how = par, "plain"
+                    elif isinstance(par, ast.Subscript) and par.value is x and isinstance(par.slice, ast.Slice) and isinstance(gp, (ast.comprehension, ast.For)) and gp.iter is par:
+                        holder, how = gp, "slice"
+                    elif isinstance(par, ast.Call) and ast.unparse(par.func) == "enumerate" and par.args and par.args[0] is x and isinstance(gp, (ast.comprehension, ast.For)) and gp.iter is par:
+                        holder, how = gp, "enum"
+                    if holder is None:
+                        okk = False
+                        break
+                    tgt = holder.target
+                    k = tgt.elts[1] if how == "enum" and isinstance(tgt, ast.Tuple) and len(tgt.elts) == 2 else tgt if how != "enum" else None
+                    if not isinstance(k, ast.Name):
+                        okk = False
+                        break
+                    plan.append((how, holder, k))
+                if not okk:
+                    continue
+                for how, holder, k in plan:
+                    if how == "len":
+                        holder.args = [copy.deepcopy(X)]
+                        continue
+                    fresh = f"_sv{next(_counter)}"
+                    scope = None
+                    if isinstance(holder, ast.For):
+                        scope = holder.body
+                    else:
+                        comp = parents.get(id(holder))
+                        scope = comp
+                    proj = _subst(E, {v: ast.Name(id=fresh, ctx=ast.Load())})
+
+                    class K(ast.NodeTransformer):
+                        def visit_Name(self, nn):
+                            if nn.id == k.id and isinstance(nn.ctx, ast.Load):
+                                return copy.deepcopy(proj)
+                            return nn
+                    if isinstance(holder, ast.For):
+                        holder.body = [K().visit(b) for b in holder.body]
+                    else:
+                        for f2 in ("elt", "key", "value"):
+                            if hasattr(scope, f2):
+                                setattr(scope, f2, K().visit(getattr(scope, f2)))
+                        for g2 in scope.generators:
+                            g2.ifs = [K().visit(c) for c in g2.ifs]
+                    k.id = fresh
+
+                    class XR(ast.NodeTransformer):
+                        def visit_Name(self, nn):
+                            return copy.deepcopy(X) if nn.id == L and isinstance(nn.ctx, ast.Load) else nn
+                    holder.iter = XR().visit(holder.iter)
+                del stmts[i]
+                n += 1
+                break
+    if n:
+        ast.fix_missing_locations(tree)
+    return n
+
+
 # ------------------------------------------------------------------------------------------- D9 NamedTuple carriers
 def namedtuples(tree):
     out = {}
@@ -1782,6 +2094,60 @@ def _nt_args(call, fields):
                 return None
             vals[f] = copy.deepcopy(dflt[f])
     return [vals[f] for f in fields]
+
+
+def record_locals(tree, nts):
+    """v = next((Rec(a, b) for ..))  /  v = Rec(a, b)      with every later read of v of the form v.<field>
+    ==>  v_f1, v_f2 = next(((a, b) for ..)) / (a, b)  and  v.<field> -> v_<field>      (the record is only a carrier of its fields)"""
+    n = 0
+    for fn in [x for x in ast.walk(tree) if isinstance(x, ast.FunctionDef)]:
+        stores = {}
+        for x in ast.walk(fn):
+            if isinstance(x, ast.Name) and isinstance(x.ctx, (ast.Store, ast.Del)):
+                stores[x.id] = stores.get(x.id, 0) + 1
+        params = {a.arg for a in fn.args.args + fn.args.kwonlyargs + fn.args.posonlyargs}
+        for st in [x for x in ast.walk(fn) if isinstance(x, ast.Assign)]:
+            if not (len(st.targets) == 1 and isinstance(st.targets[0], ast.Name) and stores.get(st.targets[0].id) == 1 and st.targets[0].id not in params):
+                continue
+            v = st.targets[0].id
+            val = st.value
+            rec = None
+            if isinstance(val, ast.Call) and isinstance(val.func, ast.Name) and val.func.id == "next" and len(val.args) == 1 and not val.keywords \
+                    and isinstance(val.args[0], ast.GeneratorExp) and isinstance(val.args[0].elt, ast.Call) and isinstance(val.args[0].elt.func, ast.Name) and val.args[0].elt.func.id in nts:
+                rec = val.args[0].elt
+            elif isinstance(val, ast.Call) and isinstance(val.func, ast.Name) and val.func.id in nts:
+                rec = val
+            if rec is None:
+                continue
+            fields = nts[rec.func.id]
+            args = _nt_args(rec, fields)
+            if args is None:
+                continue
+            loads = [x for x in ast.walk(fn) if isinstance(x, ast.Name) and x.id == v and isinstance(x.ctx, ast.Load)]
+            attr_loads = [x for x in ast.walk(fn) if isinstance(x, ast.Attribute) and isinstance(x.value, ast.Name) and x.value.id == v and isinstance(x.ctx, ast.Load) and x.attr in fields]
+            if not loads or len(loads) != len(attr_loads):
+                continue
+            names = [f"{v}_{f}" for f in fields]
+            if any(nm in stores or nm in params for nm in names):
+                continue
+            tup = ast.Tuple(elts=args, ctx=ast.Load())
+            if rec is val:
+                st.value = tup
+            else:
+                val.args[0].elt = tup
+            st.targets = [ast.Tuple(elts=[ast.Name(id=nm, ctx=ast.Store()) for nm in names], ctx=ast.Store())]
+
+            class R(ast.NodeTransformer):
+                def visit_Attribute(self, node):
+                    if isinstance(node.value, ast.Name) and node.value.id == v and isinstance(node.ctx, ast.Load) and node.attr in fields:
+                        return ast.copy_location(ast.Name(id=f"{v}_{node.attr}", ctx=ast.Load()), node)
+                    self.generic_visit(node)
+                    return node
+            R().visit(fn)
+            n += 1
+    if n:
+        ast.fix_missing_locations(tree)
+    return n
 
 
 class NamedTupleReduce(ast.NodeTransformer):
@@ -2074,7 +2440,7 @@ class DispatchSplit:
                     continue
                 leaves = _dispatch_leaves(st.value)
                 cls_leaves = [l for _, l in leaves if self._is_cls(l)]
-                if len(cls_leaves) < 2 or not all(self._is_cls(l) or (isinstance(l, ast.Constant) and l.value is None) for _, l in leaves):
+                if not cls_leaves or len(leaves) < 2 or not all(self._is_cls(l) or (isinstance(l, ast.Constant) and l.value is None) for _, l in leaves):
                     continue
                 rest = stmts[i + 1:]
                 if len(rest) > 12 or any(isinstance(x, ast.Call) for c, _ in leaves for t, _ in c for x in ast.walk(t)):
@@ -2124,20 +2490,100 @@ def operator_names(tree):
                     OPERATOR_NAMES[a.asname or a.name] = a.name
 
 
+def numpy_names(tree):
+    """`from numpy.ma import clump_unmasked [as c]` / `from numpy import nan` / `import numpy` : the bare names become the dotted
+    spelling the rules know (`np.ma.clump_unmasked`, `np.nan`, `np.`) - the same objects under another name."""
+    stored = {n.id for n in ast.walk(tree) if isinstance(n, ast.Name) and isinstance(n.ctx, (ast.Store, ast.Del))}
+    params = {a.arg for f in ast.walk(tree) if isinstance(f, (ast.FunctionDef, ast.Lambda)) for a in f.args.args + f.args.kwonlyargs + f.args.posonlyargs}
+    names = {}
+    need_import = set()
+    for st in tree.body:
+        if isinstance(st, ast.ImportFrom) and st.level == 0 and st.module in ("numpy", "numpy.ma"):
+            for a in st.names:
+                nm = a.asname or a.name
+                if nm not in stored and nm not in params and a.name != "*":
+                    names[nm] = ("np." if st.module == "numpy" else "np.ma.") + a.name
+        if isinstance(st, ast.ImportFrom) and st.level == 0 and st.module in ("shutil", "os", "os.path"):
+            for a in st.names:
+                nm = a.asname or a.name
+                if nm not in stored and nm not in params and a.name != "*" and a.name not in _SEEK:
+                    names[nm] = st.module + "." + a.name
+                    need_import.add(st.module.split(".")[0])
+        if isinstance(st, ast.Import):
+            for a in st.names:
+                if a.name == "numpy" and (a.asname or "numpy") != "np" and (a.asname or "numpy") not in stored | params:
+                    names[a.asname or "numpy"] = "np"
+                if a.name == "numpy.ma" and a.asname and a.asname not in stored | params:
+                    names[a.asname] = "np.ma"
+    if not names:
+        return 0
+    has_np = any(isinstance(st, ast.Import) and any(a.name == "numpy" and a.asname == "np" for a in st.names) for st in tree.body)
+
+    class R(ast.NodeTransformer):
+        def visit_Name(self, n):
+            if isinstance(n.ctx, ast.Load) and n.id in names:
+                return ast.copy_location(ast.parse(names[n.id], mode="eval").body, n)
+            return n
+    for i, st in enumerate(tree.body):
+        if not isinstance(st, (ast.Import, ast.ImportFrom)):
+            tree.body[i] = R().visit(st)
+    if not has_np and any(v.startswith("np") for v in names.values()):
+        tree.body.insert(0, ast.Import(names=[ast.alias(name="numpy", asname="np")]))
+    for mod_ in sorted(need_import):
+        if not any(isinstance(st, ast.Import) and any(a.name == mod_ and a.asname is None for a in st.names) for st in tree.body):
+            tree.body.insert(0, ast.Import(names=[ast.alias(name=mod_, asname=None)]))
+    ast.fix_missing_locations(tree)
+    return len(names)
+
+
+def forward_lazy_iterables(tree):
+    """T = <lazy iterable> (generator expression, chain.from_iterable / map / filter / zip / enumerate / reversed / iter call)
+    for v in T: ..          (next statement, T read nowhere else)      ==>   for v in <lazy iterable>: ..
+    Nothing runs between the creation and the loop header, so the iterable is created at the same moment."""
+    LAZY = ("chain.from_iterable", "itertools.chain.from_iterable", "chain", "itertools.chain", "map", "filter", "zip", "enumerate", "reversed", "iter",
+            "islice", "itertools.islice", "product", "itertools.product", "repeat", "itertools.repeat")
+    n = 0
+    for fn in [x for x in ast.walk(tree) if isinstance(x, ast.FunctionDef)]:
+        loads = {}
+        stores = {}
+        for x in ast.walk(fn):
+            if isinstance(x, ast.Name):
+                d = loads if isinstance(x.ctx, ast.Load) else stores
+                d[x.id] = d.get(x.id, 0) + 1
+        for owner, fld in list(_blocks(fn)):
+            stmts = getattr(owner, fld)
+            i = 0
+            while i + 1 < len(stmts):
+                a, b = stmts[i], stmts[i + 1]
+                if isinstance(a, ast.Assign) and len(a.targets) == 1 and isinstance(a.targets[0], ast.Name) and isinstance(b, ast.For) \
+                        and isinstance(b.iter, ast.Name) and b.iter.id == a.targets[0].id and loads.get(b.iter.id) == 1 and stores.get(b.iter.id) == 1 \
+                        and (isinstance(a.value, ast.GeneratorExp) or (isinstance(a.value, ast.Call) and ast.unparse(a.value.func) in LAZY)):
+                    b.iter = a.value
+                    del stmts[i]
+                    n += 1
+                    continue
+                i += 1
+    return n
+
+
 def desugar_module(tree: ast.Module):
     seek_names(tree)
     operator_names(tree)
+    numpy_names(tree)
+    forward_lazy_iterables(tree)
     collect_list_attrs(tree)
     MatchToIf().visit(tree)
     ast.fix_missing_locations(tree)
     explicit_properties(tree)
     exitstack_conditional(tree)
     inline_contextmanagers(tree)
+    generators_to_tuples(tree)
     unroll_yield_sequences(tree)
     inline_self_subscripts(tree)
     flat_iteration(tree)
     bytearray_assembly(tree)
     scratch_row_replay(tree)
+    projected_snapshots(tree)
     dtype_names(tree)
     WalrusHoist().run(tree)
     WhileToFor().run(tree)
